@@ -150,4 +150,135 @@ theorem next_ok (d : D) (s : PhraseSel) (hr : RangeOK s)
               simp only [Composition.len] at hfge; have := hr.le; omega) hw
         exact ⟨s', hq, ⟨hp.com, hp.strategy, hp.range⟩⟩
 
+/-! ## Down / Space -/
+
+theorem selDownSpace_ok (hE : EnvOK env G) {sh : Shared D L} (h : ShInv env G sh) {s : Selecting}
+    (hs : SelInv env sh s) (hnt : selNoTable s) : SelResOK env G (selDownSpace env s sh) := by
+  obtain ⟨tp, hq, _⟩ := totalPage_ok hE h hs hnt
+  unfold selDownSpace
+  rw [hq]
+  dsimp only
+  split
+  · exact .ok ⟨h, fun _ _ => hs.page _, fun st hst => (by cases hst)⟩
+  · have h1 := hs.sel
+    split
+    · next p hp =>
+      rw [hp] at h1
+      obtain ⟨p', hq', hn⟩ := next_ok (env := env) sh.dict p ⟨h1.lt, h1.le, h1.syl⟩ h1.word
+      rw [hq']
+      refine .ok ⟨h, fun _ _ => ⟨?_, fun _ => .inl ⟨p', rfl⟩⟩, fun st hst => (by cases hst)⟩
+      show PhraseOK env sh p'
+      exact ⟨hn.com.trans h1.com, hn.range.lt, hn.range.le, hn.range.syl, fun c hc => by
+        rw [hn.strategy]; exact h1.word c (by rw [← hn.com]; exact hc)⟩
+    · next hns =>
+      refine .ok ⟨h, fun _ _ => ⟨?_, fun ha => ?_⟩, fun st hst => (by cases hst)⟩
+      · exact hs.sel
+      · exact hs.repl ha
+
+/-! ## j / k -/
+
+theorem retarget_ok {sh : Shared D L} (h : ShInv env G sh) (s : Selecting)
+    (hlt : sh.com.cursor < sh.com.inner.symbols.length) :
+    OkAnd (fun x => ShInv env G x.1 ∧ ∃ s', x.2 = .toState (.selecting s') ∧ SelInv env x.1 s') (retarget env s sh) := by
+  unfold retarget
+  have hsym : sh.com.symbol? = some (sh.com.inner.symbols[sh.com.cursor]) := by
+    unfold CompEditor.symbol?
+    rw [symbol?_lt hlt, List.getElem?_eq_getElem hlt]
+  rw [hsym]
+  dsimp only
+  cases hx : sh.com.inner.symbols[sh.com.cursor] with
+  | syl k =>
+    simp only [Sym.isSyl, if_true]
+    have hk : sh.com.inner.symbols[sh.com.cursor]? = some (Sym.syl k) := by rw [List.getElem?_eq_getElem hlt, hx]
+    obtain ⟨p, hq, p1, p2, p3, p4, p5⟩ := init_ok (env := env) (!sh.options.phraseChoiceRearward) sh.options.lookupStrategy
+      sh.com.inner sh.com.cursor sh.dict hlt ⟨k, hk⟩ (fun c hc => (h.word c hc).2)
+    rw [hq]
+    refine .ok ⟨h, _, rfl, ?_, fun _ => .inl ⟨p, rfl⟩⟩
+    show PhraseOK env sh p
+    exact ⟨p1, p3, by rw [p1]; exact p4, by rw [p1]; exact p5, fun c hc => by rw [p2]; rw [p1] at hc; exact (h.word c hc).2⟩
+  | chr ch =>
+    simp only [Sym.isSyl]
+    have hk : sh.com.inner.symbols[sh.com.cursor]? = some (Sym.chr ch) := by rw [List.getElem?_eq_getElem hlt, hx]
+    exact .ok ⟨h, _, rfl, rfl, fun _ => .inr ⟨ch, hk⟩⟩
+
+theorem selMove_ok {sh : Shared D L} (h : ShInv env G sh) {s : Selecting} (hs : SelInv env sh s) (isJ : Bool) :
+    SelResOK env G (selMove env s sh isJ) := by
+  unfold selMove
+  split
+  · exact .ok ⟨h, fun _ _ => hs, fun st hst => (by cases hst)⟩
+  · next hne =>
+    have hpos : 0 < sh.com.inner.symbols.length := by
+      simp only [CompEditor.isEmpty, Composition.isEmpty, Composition.len, beq_iff_eq] at hne; omega
+    have hbegin : (match s.sel with | .phrase p => p.begin_ | _ => sh.com.cursor) ≤ sh.com.inner.symbols.length := by
+      have h1 := hs.sel
+      split
+      · next p hp => rw [hp] at h1; have := h1.lt; have := h1.le; rw [h1.com] at this; omega
+      · exact h.ced.cur
+    have hJ : ∀ b, b ≤ sh.com.inner.symbols.length → (sh.com.moveCursor (b - 1)).cursor < sh.com.inner.symbols.length := by
+      intro b hb
+      show min (b - 1) sh.com.inner.len < _
+      simp only [Composition.len]; omega
+    have hK : ∀ b, ((sh.com.moveCursor (b + 1)).clampCursor).cursor < sh.com.inner.symbols.length := by
+      intro b
+      unfold CompEditor.clampCursor
+      split
+      · next he =>
+        show (sh.com.moveCursor (b + 1)).cursor - 1 < _
+        simp only [CompEditor.moveCursor, Composition.len] at he ⊢; omega
+      · next he =>
+        show (sh.com.moveCursor (b + 1)).cursor < _
+        simp only [CompEditor.moveCursor, Composition.len] at he ⊢; omega
+    dsimp only
+    have key : ∀ com : CompEditor, CedInv com → com.inner = sh.com.inner → com.cursor < sh.com.inner.symbols.length →
+        SelResOK env G (match retarget env s { sh with com := com } with
+          | .ok (sh', .toState (.selecting s')) => .ok ⟨sh', s', .spin .absorb⟩
+          | .ok (sh', _) => .ok ⟨sh', s, .spin .absorb⟩
+          | .panic q => .panic q
+          | .outOfFuel => .outOfFuel) := by
+      intro com hc hin hcur
+      have h1 : ShInv env G { sh with com := com } := h.setComSame hc (by rw [hin])
+      obtain ⟨⟨sh', t⟩, hq, hi, s', ht, hs'⟩ := retarget_ok h1 s (by show com.cursor < com.inner.symbols.length; rw [hin]; exact hcur)
+      rw [hq]
+      simp only at ht
+      subst ht
+      exact .ok ⟨hi, fun _ _ => hs', fun st hst => (by cases hst)⟩
+    cases isJ with
+    | true =>
+      simp only [if_true]
+      exact key _ (ced_moveCursor h.ced _) rfl (hJ _ hbegin)
+    | false =>
+      simp only [Bool.false_eq_true, if_false]
+      exact key _ (ced_clampCursor (ced_moveCursor h.ced _)) (clampCursor_inner _) (hK _)
+
+/-! ## digits, and all of `Selecting::next` for lists that are not symbol tables -/
+
+theorem selDigit_ok (hE : EnvOK env G) {sh : Shared D L} (h : ShInv env G sh) {s : Selecting}
+    (hs : SelInv env sh s) (hnt : selNoTable s) (c : Nat) : SelResOK env G (selDigit env s sh c) := by
+  obtain ⟨⟨s', sh', t⟩, hq, h1, h2, h3⟩ := select_ok hE h hs hnt (c - 1)
+  unfold selDigit
+  rw [hq]
+  exact .ok ⟨h1, h2, h3⟩
+
+theorem selectingNext_ok (hE : EnvOK env G) {sh : Shared D L} {s : Selecting} (h : ShInv env G sh)
+    (hs : SelInv env sh s) (hnt : selNoTable s) (ev : KeyEvent) : SelResOK env G (selectingNext env s sh ev) := by
+  have leafSpin : ∀ b, SelResOK env G (.ok ⟨sh, s, .spin b⟩) :=
+    fun b => .ok ⟨h, fun _ _ => hs, fun st hst => (by cases hst)⟩
+  have leafTo : ∀ sh' : Shared D L, ShInv env G sh' → SelResOK env G (.ok ⟨sh', s, .toState .entering⟩) :=
+    fun sh' h' => .ok ⟨h', fun b hb => (by cases hb), fun st hst => (by cases hst; trivial)⟩
+  unfold selectingNext
+  refine selResOK_ite (fun _ => leafSpin _) fun _ => ?_
+  refine selResOK_ite (fun _ => leafTo _ (cancel_inv h)) fun _ => ?_
+  refine selResOK_ite (fun _ => leafTo _ (cancel_inv (h.congr rfl rfl rfl rfl rfl))) fun _ => ?_
+  refine selResOK_ite (fun _ => leafTo _ (cancel_inv h)) fun _ => ?_
+  refine selResOK_ite (fun _ => selDownSpace_ok hE h hs hnt) fun _ => ?_
+  refine selResOK_ite (fun _ => selMove_ok h hs _) fun _ => ?_
+  refine selResOK_ite (fun _ => selMove_ok h hs _) fun _ => ?_
+  refine selResOK_ite (fun _ => selPrevPage_ok hE h hs hnt) fun _ => ?_
+  refine selResOK_ite (fun _ => selNextPage_ok hE h hs hnt) fun _ => ?_
+  refine selResOK_ite (fun _ => selDigit_ok hE h hs hnt _) fun _ => ?_
+  refine selResOK_ite (fun _ => ?_) fun _ => ?_
+  · refine leafTo _ ?_
+    exact (cancel_inv h).setComSame (ced_popCursor (cancel_inv h).ced) (by rw [popCursor_inner])
+  · exact selResOK_ite (fun _ => leafSpin _) (fun _ => leafSpin _)
+
 end Chewing.C01
